@@ -1167,8 +1167,21 @@ def gen_run(seed, params):
     seam = (not small) and 'plain' in params.get(
         'config_kinds', ('plain', 'param')) and stream(
             seed, 'scenario-seam').random() < params.get('p_seam', 0.05)
+    # very deep one-sided refinement (time level 40-46 towards a corner of
+    # the cylinder) on a grid whose space coordinates are far from 0: where
+    # float absorption (x + tiny t), exhausted mantissas and level counters
+    # show (own stream for the decision)
+    deep = (not small) and (not seam) and 'plain' in params.get(
+        'config_kinds', ('plain', 'param')) and stream(
+            seed, 'scenario-deep').random() < params.get('p_deep', 0.004)
     for attempt in range(20):
         config = gen_config(rng, params)
+        if deep:
+            n_x = rng.choice([1, 2, 2, 3])
+            off = rng.choice([0.0, 1.0, 1.0, 1000.0, 2.0**20])
+            config = {'kind': 'plain', 'glued': rng.random() < 0.5,
+                      'space': [off + k for k in range(n_x + 1)],
+                      'time': [0.0, 1.0]}
         if seam:
             n_t, n_x = rng.choice([(1, 1), (1, 2), (1, 2), (2, 2), (1, 3),
                                    (2, 3)])
@@ -1192,6 +1205,22 @@ def gen_run(seed, params):
             continue
         break
     mm = case.model.copy()
+    if deep:
+        ops = []
+        col = rng.randrange(case.n_x)
+        x_pt = col * S + (1 if rng.random() < 0.5 else S - 1)
+        t_pt = 1 if rng.random() < 0.7 else S - 1
+        n_space = 0
+        for k in range(rng.randint(40, 46)):
+            if k < 8 and n_space < 3 and rng.random() < 0.2:
+                n_space += 1
+                op = {'op': 'bisect', 'pt': [t_pt, x_pt], 'axis': 1}
+                model_apply(case, mm, op, 4000)
+                ops.append(op)
+            op = {'op': 'bisect', 'pt': [t_pt, x_pt], 'axis': 0}
+            model_apply(case, mm, op, 4000)
+            ops.append(op)
+        return {'config': config, 'ops': ops}
     cap = params.get('leaf_cap', 300)
     w = dict(params['weights'])
     big = (not small) and rng.random() < params.get('p_big', 1.0 / 800)
